@@ -27,7 +27,12 @@ Unit(u, x, y) ==
     [] u = 16 -> <<Tok("pre", "-"), Id(x), CALL, Id(y), RP>>
     [] u = 17 -> <<Tok("pre", "!"), Id(x), Tok("lb", "["), Tok("int", "0"), Tok("rb", "]")>>
     [] u = 18 -> <<Id(x), Tok("chain", "~@"), Tok("prop", "m")>>
-NUnits == 18
+    [] u = 19 -> <<Tok("pre", "-"), Tok("int", "2"), Tok("lb", "["), Tok("int", "0"), Tok("rb", "]")>>
+    [] u = 20 -> <<Tok("pre", "-"), Tok("int", "2"), CALL, Id(y), RP>>
+    [] u = 21 -> <<Tok("pre", "-"), Tok("int", "2"), Tok("chain", "."), Tok("prop", "m")>>
+    [] u = 22 -> <<Tok("pre", "!"), Tok("int", "2"), Tok("lb", "["), Tok("int", "0"), Tok("rb", "]")>>
+    [] u = 23 -> <<Tok("pre", "-"), Tok("int", "2")>>
+NUnits == 23
 NConn == Len(InfixOps) + 5
 Conn(c) == IF c <= Len(InfixOps) THEN Inf(InfixOps[c])
            ELSE CASE c = Len(InfixOps) + 1 -> Tok("asg", ":=")
